@@ -2,7 +2,7 @@
    ONLY statements: each theorem is closed by `exact` of a lemma proved elsewhere and followed by Print Assumptions. *)
 From Coq Require Import ZArith NArith List Bool Lia Permutation FMapPositive.
 Import ListNotations.
-Require Import Base Strings Builtins Interp Machine Events Progress Num NumProofs Lex ParseProofs LinkErr.
+Require Import Base Strings Builtins Interp Machine Events Progress Num NumProofs Lex ParseProofs LinkKinds LinkErr.
 
 Theorem never_stuck fuel prog stdin k :
   fst (run_main fuel prog stdin) <> OStuck k.
@@ -20,4 +20,20 @@ Theorem parse_total t stk :
   tok_wf t = true -> parse_token t stk <> inr HostValueError.
 Proof. exact (ParseProofs.parse_total t stk). Qed.
 Print Assumptions parse_total.
+
+(* REGENERATED on every run: every type expression a built-in hands to check_type / match_arguments / is_type, in source order, is the audited one - the kinds each model built-in accepts were written against this list *)
+Theorem type_checks_audited  :
+  GenKinds.gen_type_checks = audited_type_checks.
+Proof. exact (LinkKinds.type_checks_audited ). Qed.
+Print Assumptions type_checks_audited.
+
+Theorem strict_is_the_source_union v :
+  in_union GenKinds.gen_StrictValue v = negb (is_delayed v).
+Proof. exact (LinkKinds.strict_is_the_source_union v). Qed.
+Print Assumptions strict_is_the_source_union.
+
+Theorem non_io_is_the_source_union v :
+  in_union GenKinds.gen_NonIOStrictValue v = negb (is_delayed v) && negb (is_io v).
+Proof. exact (LinkKinds.non_io_is_the_source_union v). Qed.
+Print Assumptions non_io_is_the_source_union.
 
